@@ -96,7 +96,7 @@ var c05CmdsValued = [][]string{
 	{"balance", "--color=false", "-v", "CHF", "--diff", "-m", "1:1,^Assets"},
 }
 
-func observeLayout(bin, dir string, lay *kj.Layout, valued bool, ids map[string]int, seed int) c05Obs {
+func observeLayout(bin, dir string, lay *kj.Layout, valued bool, ids map[string]int, seed int, wide ...bool) c05Obs {
 	os.RemoveAll(dir)
 	os.MkdirAll(dir, 0o755)
 	defer os.RemoveAll(dir)
@@ -108,6 +108,9 @@ func observeLayout(bin, dir string, lay *kj.Layout, valued bool, ids map[string]
 	var o c05Obs
 	for k, cmd := range cmds {
 		env := []string{fmt.Sprintf("VERIF_SCHED_SEED=%d", seed*17+k), fmt.Sprintf("GOMAXPROCS=%d", []int{16, 2, 1}[(seed+k)%3])}
+		if len(wide) > 0 && wide[0] {
+			env[1] = fmt.Sprintf("GOMAXPROCS=%d", []int{16, 16, 8, 16}[(seed+k)%4])
+		}
 		r := core.Run(core.RunOpts{Dir: dir, Timeout: 60 * time.Second, Env: env}, bin, append(append([]string{}, cmd...), root)...)
 		ex := r.Exit
 		if r.TimedOut {
@@ -193,13 +196,52 @@ func C05(c *core.Ctx) {
 			jobs = append(jobs, job{id: id, base: b, lay: kj.SplitTree(rng, j, dirs, nf), valued: valued, desc: fmt.Sprintf("base %d variant %d: permuted, %d file(s)", b, v, nf)})
 		}
 	}
+	// wide layouts: the same fresh commodities first mentioned in many files at once, with an assertion on the totals
+	for hb := 0; hb < c.Pick(1, 3); hb++ {
+		j := &kj.Journal{QS: 1}
+		j.Dirs = append(j.Dirs, kj.Dir{K: "open", Z: 18262, A: "Assets:Depot"}, kj.Dir{K: "open", Z: 18262, A: "Equity:Equity"})
+		nparts, ncom := 50+10*hb, 200
+		as := kj.Dir{K: "assert", Z: 18340, Multi: true}
+		for t := 0; t < ncom; t++ {
+			as.Bal = append(as.Bal, kj.Bal{A: "Assets:Depot", C: fmt.Sprintf("K%03dQ", t), Q: nparts * (1 + t)})
+		}
+		for f := 0; f < nparts; f++ {
+			for t := 0; t < ncom; t++ {
+				j.Dirs = append(j.Dirs, kj.Dir{K: "trx", Z: 18300 + f%28, Desc: fmt.Sprintf("buy %d %d", f, t), Bk: []kj.Booking{{Cr: "Equity:Equity", Dr: "Assets:Depot", C: fmt.Sprintf("K%03dQ", t), Q: 1 + t}}})
+			}
+		}
+		j.Dirs = append(j.Dirs, as)
+		bases = append(bases, kj.SplitTree(rng, j, j.Dirs, 1))
+		valuedOf = append(valuedOf, false)
+		b := len(bases) - 1
+		for v := 0; v < c.Pick(16, 40); v++ {
+			// one file per part (every part mentions every commodity), nested include tree
+			lay := &kj.Layout{Root: "main.knut", Files: map[string]string{}, Order: []string{"main.knut"}}
+			var main strings.Builder
+			main.WriteString(j.RenderDir(j.Dirs[0]) + "\n" + j.RenderDir(j.Dirs[1]) + "\n")
+			for f := 0; f < nparts; f++ {
+				name := fmt.Sprintf("parts/d%d/p%03d.knut", f%4, f)
+				fmt.Fprintf(&main, "include \"%s\"\n", name)
+				var pb strings.Builder
+				for t := 0; t < ncom; t++ {
+					pb.WriteString(j.RenderDir(j.Dirs[2+f*ncom+t]) + "\n")
+				}
+				lay.Files[name] = pb.String()
+				lay.Order = append(lay.Order, name)
+			}
+			main.WriteString("\n" + j.RenderDir(as))
+			lay.Files["main.knut"] = main.String()
+			id++
+			jobs = append(jobs, job{id: id, base: b, lay: lay, valued: false, desc: fmt.Sprintf("wide base %d run %d: %d files x %d fresh commodities", hb, v, nparts, ncom)})
+		}
+	}
 	ids := map[string]int{}
 	baseObs := make([]c05Obs, len(bases))
 	for b := range bases { // sequential: ids map is shared
 		baseObs[b] = observeLayout(bin, filepath.Join(root, fmt.Sprintf("b%d", b)), bases[b], valuedOf[b], ids, b)
 	}
 	build := func(jb job, seed int) map[string]any {
-		o := observeLayout(bin, filepath.Join(root, fmt.Sprintf("v%d", jb.id)), jb.lay, jb.valued, ids, seed)
+		o := observeLayout(bin, filepath.Join(root, fmt.Sprintf("v%d", jb.id)), jb.lay, jb.valued, ids, seed, strings.HasPrefix(jb.desc, "wide base"))
 		bo := baseObs[jb.base]
 		bc := []any{}
 		cmds := c05Cmds
